@@ -78,7 +78,7 @@ func substExpr(x Expr, sub map[string]Expr) Expr {
 		for _, v := range x.Vars {
 			delete(inner, v)
 		}
-		return &EQuant{Forall: x.Forall, Vars: x.Vars, Body: substExpr(x.Body, inner)}
+		return &EQuant{Forall: x.Forall, Vars: x.Vars, Sorts: x.Sorts, Body: substExpr(x.Body, inner)}
 	case *ELet:
 		inner := map[string]Expr{}
 		for k, v := range sub {
